@@ -353,7 +353,7 @@ CLI_RULE = ("the built `normalizer` binary (feature cli, rebuilt from the curren
             "library): files written with content, status, report kind, every field of every record; and the property statements checked "
             "directly, the content of a normalised file against the CODEC CRATE's strict decode of the original bytes (not the library's own text); "
             "three fixed size cases without riders: one legacy file of 500,001..900,000 bytes (normalise), one ASCII head of 500,000+ bytes followed by "
-            "windows-1251 text, > 1 MB (report), one legacy file > 1 MB (normalise); non-trivial = well-formed invocations on readable inputs")
+            "windows-1251 text, > 1 MB (report), one legacy file > 1 MB (normalise); up to three short legacy phrases screened (through the public API) for a NON-TRANSITIVE chain in their result list -- a later match pairwise preferred to the first -- under a plain, a --minimal and a --normalize invocation; non-trivial = well-formed invocations on readable inputs")
 
 PROPS["C14"] = {
     "module": "PropC14",
